@@ -382,7 +382,7 @@ func c01Sweep(r *Rng, rel, text string, maxPos int, methods []string) []c01Step 
 
 func genBytesMutate(r *Rng, src string) (string, string) {
 	b := []byte(src)
-	kind := r.Intn(14)
+	kind := r.Intn(15)
 	hostile := []string{"\x00", "\x80", "\xff", "\xc3", "\xe4\xb8", "\xf0\x9f\x98", "\xed\xa0\x80", "\xef\xbb\xbf", "#!", "\\", "\"", "'", "[[", "]]", "--[[", "--[==[", "]==]",
 		"\r", "\n\r", "\\z", "\\x", "\\u{", "0x", "1e", "..", "...", "::", "<const>", "<close>", "goto", "---@", "---@class ", "---@type ", "---@alias A A", "\t", "\v", "\f"}
 	switch kind {
@@ -444,6 +444,14 @@ func genBytesMutate(r *Rng, src string) (string, string) {
 		}
 	case 11: // BOM / shebang
 		return r.Pick([]string{"\xef\xbb\xbf", "#!/usr/bin/lua\n", "#", "#\r"}) + src, "prefix"
+	case 14: // replace an identifier by a parenthesised expression of another kind (a literal that spells a special name, a constructor, ...)
+		lx := RLex(b)
+		for _, t := range lx.Toks {
+			if t.K == TName && r.Chance(1, 6) {
+				return string(b[:t.Off]) + r.Pick([]string{`("_G")`, `("self")`, `("_ENV")`, `("x")`, `("a.b")`, `("!_G")`, `("")`, `(1)`, `(nil)`, `(true)`, `({})`, `(_G)`, `(...)`, `(function() end)`, `("_G").a`, `(_G)["_G"]`,
+					`_G._G`, `_G["a.b"]`, `_ENV._G`}) + string(b[t.End:]), "name-to-parenthesised-expression"
+			}
+		}
 	case 12: // replace identifiers by keywords
 		lx := RLex(b)
 		for _, t := range lx.Toks {
@@ -548,6 +556,36 @@ func c01LaneA(c *Ctx, root *Rng, n int) []*c01Case {
 			r := root.Fork(uint64(9000 + b))
 			cs := &c01Case{Lane: "A-content", Label: fmt.Sprintf("end-of-file-inside-a-token:batch%d", b), Files: files}
 			cs.Steps = c01Sweep(r, "e00.lua", strings.ToValidUTF8(files["e00.lua"], "\uFFFD"), 8, c01PosMethods)
+			cases = append(cases, cs)
+		}
+	}
+	// A2: special names and literals in the prefix position of member expressions - every combination of a prefix (the
+	// global-table / self / environment names, literals that spell them, other primaries), an access path and a statement
+	// context; 40 one-statement files per server, requests swept over the first
+	{
+		prefixes := []string{`("_G")`, `("self")`, `("_ENV")`, `(_G)`, `_G`, `_ENV`, `self`, `("x")`, `("")`, `("a.b")`, `(1)`, `({})`, `(nil)`, `("_G").a`, `_G._G`, `_G["_G"]`, `(function() end)`, `(...)`}
+		paths := []string{".x", `["x"]`, "[1]", ".x.y", `["x"].y`, ":m()", ".x()", "[k]", `["a.b"]`, ""}
+		ctxs := []string{"%s = 1", "local v = %s", "%s = %s", "print(%s)", "%s, b = 1, 2", "for i = 1, 2 do %s = i end", "function f() %s = 1 return %s end", "local t = { k = %s }", "if %s then %s = nil end"}
+		var all []string
+		for _, p := range prefixes {
+			for _, pa := range paths {
+				for _, cx := range ctxs {
+					all = append(all, strings.ReplaceAll(cx, "%s", p+pa)+"\n")
+				}
+			}
+		}
+		for b := 0; b*40 < len(all); b++ {
+			files := map[string]string{}
+			end := (b + 1) * 40
+			if end > len(all) {
+				end = len(all)
+			}
+			for k, txt := range all[b*40 : end] {
+				files[fmt.Sprintf("p%02d.lua", k)] = txt
+			}
+			r := root.Fork(uint64(9500 + b))
+			cs := &c01Case{Lane: "A-content", Label: fmt.Sprintf("special-prefix-member-expressions:batch%d", b), Files: files}
+			cs.Steps = c01Sweep(r, "p00.lua", files["p00.lua"], 8, c01PosMethods)
 			cases = append(cases, cs)
 		}
 	}
